@@ -128,8 +128,8 @@ Line(e) ==
     [] e.e = "send_end" ->
          IF ~(proc = "up" /\ sendpc = "cleared") THEN Fail("send_finished_without_clearing_idle")
          ELSE SendForward /\ Ok /\ UNCHANGED relFlip
-    [] e.e = "cancel" -> IF proc = "up" /\ gen \in loops /\ active /\ row.exists /\ row.status = "running"
-                         THEN CancelDirect /\ Ok /\ UNCHANGED relFlip ELSE Skip
+    [] e.e = "cancel" -> IF Dev_CancelBypassesLock /\ proc = "up" /\ gen \in loops /\ active /\ row.exists /\ row.status = "running"
+                         THEN CancelDirect /\ Ok /\ UNCHANGED relFlip ELSE Skip      \* (a cancel is a send: its send lines follow)
     [] e.e = "crash" -> IF proc # "up" THEN Fail("crash_while_down") ELSE Crash /\ Ok /\ UNCHANGED relFlip
     [] e.e = "restart" ->
          IF proc # "down" THEN Fail("restart_while_up")
